@@ -1128,9 +1128,10 @@ class MoneyConverter:
             else:
                 raise ValueError(f"Not a valid period: {validity}.")
         elif isinstance(validity, tuple):
-            dt_str = f"{validity[0]:04d}-{validity[1]:02d}-01"
             try:  # verify year and month
-                dt = date.fromisoformat(dt_str)
+                year, month = (int(part) if isinstance(part, str) else part
+                               for part in validity[:2])
+                dt = date.fromisoformat(f"{year:04d}-{month:02d}-01")
             except ValueError:
                 raise ValueError(f"Not a valid year / month: "
                                  f"{validity}.") from None
